@@ -22,6 +22,7 @@ Verdict(o) ==
          IF ~o.others THEN "viol-another-parameter-of-the-call-changed"
          ELSE IF ParamOK(o.c, o.group, o.sent, o.outcome, o.got, o.mwgot) THEN "ok"
          ELSE IF "Dev_EmptyArrayCollision" \in KnownDeviations /\ ImplEmptyArray(o.c, o.sent, o.outcome, o.got) /\ o.mwgot = o.got THEN "known=Dev_EmptyArrayCollision"
+         ELSE IF "Dev_HeaderValueTrimmed" \in KnownDeviations /\ ImplHeaderTrim(o.c, o.sent, o.outcome, o.got) /\ o.mwgot = o.got THEN "known=Dev_HeaderValueTrimmed"
          ELSE IF o.outcome = "ok" THEN (IF ~SameValue(o.got, o.mwgot) THEN "viol-middleware-saw-another-value" ELSE "viol-parameter-delivered-changed")
          ELSE IF o.outcome \in {"client_err", "refused_4xx"} THEN "viol-core-value-not-delivered"
          ELSE "viol-neither-delivered-nor-refused"
